@@ -18,12 +18,12 @@ import (
 //	map: created when dst is nil, then merged key by key into dst's map
 //	pointer: nil src ignored; nil dst takes the SAME pointer; both set: merged into dst's pointee
 //
-// The only option recognised is WithOverride (by function identity); others are not encodable.
+// Options recognised (by function identity): WithOverride, WithoutDereference; others are not encodable.
 func init() {
 	reg("dario.cat/mergo.Merge", func(m *Machine, fn *ssa.Function, a []Value) Value {
 		dst := a[0].(Iface)
 		src := a[1].(Iface)
-		overwrite := false
+		overwrite, noDeref := false, false
 		for _, o := range m.sliceElems(a[2].(Slice)) {
 			cl, _ := o.(*Closure)
 			if cl == nil {
@@ -32,6 +32,8 @@ func init() {
 			switch cl.Fn.String() {
 			case "dario.cat/mergo.WithOverride":
 				overwrite = true
+			case "dario.cat/mergo.WithoutDereference":
+				noDeref = true
 			default:
 				m.notEnc("mergo option %s", cl.Fn)
 			}
@@ -53,7 +55,9 @@ func init() {
 		if !types.Identical(dp.Elem(), st) {
 			return m.errorf("src and dst must be of same type", nil)
 		}
+		m.mergoNoDeref = noDeref
 		m.mergoDeep(dst.V.(Ptr).C, sv, st, overwrite)
+		m.mergoNoDeref = false
 		return Iface{}
 	})
 }
@@ -94,6 +98,9 @@ func (m *Machine) mergoEmpty(v Value, t types.Type) *sym.Term {
 	case Ptr:
 		if x.C == nil {
 			return c.True
+		}
+		if m.mergoNoDeref {
+			return c.False // WithoutDereference: a non-nil pointer is never empty
 		}
 		return m.mergoEmpty(m.load(x.C), t.Underlying().(*types.Pointer).Elem())
 	case *Closure:
@@ -170,6 +177,14 @@ func (m *Machine) mergoDeep(dst *Cell, src Value, t types.Type, overwrite bool) 
 		dp := m.load(dst).(Ptr)
 		if dp.C == nil {
 			m.store(dst, sp) // same pointer
+			return
+		}
+		if m.mergoNoDeref {
+			// WithoutDereference: pointers are not merged through; a pointer to a
+			// non-struct replaces dst when overwriting, a pointer to a struct is left alone
+			if _, isStruct := u.Elem().Underlying().(*types.Struct); !isStruct && overwrite {
+				m.store(dst, sp)
+			}
 			return
 		}
 		m.mergoDeep(dp.C, m.load(sp.C), u.Elem(), overwrite)
@@ -398,6 +413,65 @@ func init() {
 			m.writeHook(c, c.V, c.V)
 		}
 		return nil
+	})
+	reg("CallUnmarshalers", func(m *Machine, fn *ssa.Function, a []Value) Value {
+		// For every named type of the module reachable from the static type of
+		// the decode target that has its own UnmarshalYAML(*yaml.Node) error, call
+		// it on a zero value with a zero node (what a reflection-driven decoder
+		// does whenever it meets such a value). Returns the number of calls.
+		iv, ok := a[0].(Iface)
+		if !ok || iv.T == nil {
+			return m.ctx.BV(0, 64)
+		}
+		n := 0
+		seen := map[types.Type]bool{}
+		var visit func(t types.Type, depth int)
+		visit = func(t types.Type, depth int) {
+			if t == nil || seen[t] || depth > 12 {
+				return
+			}
+			seen[t] = true
+			if named, ok := t.(*types.Named); ok && named.Obj().Pkg() != nil && m.P.InitPkgs[named.Obj().Pkg().Path()] {
+				for _, recv := range []types.Type{types.NewPointer(t), t} {
+					sel := m.P.Prog.MethodSets.MethodSet(recv).Lookup(named.Obj().Pkg(), "UnmarshalYAML")
+					if sel == nil {
+						continue
+					}
+					f := m.P.Prog.MethodValue(sel)
+					if f == nil || f.Blocks == nil || f.Signature.Params().Len() != 1 {
+						break
+					}
+					pt, ok := f.Signature.Params().At(0).Type().(*types.Pointer)
+					if !ok {
+						break
+					}
+					var rv Value = Ptr{C: m.newCell(t)}
+					if _, isPtr := f.Signature.Recv().Type().(*types.Pointer); !isPtr {
+						rv = m.load(m.newCell(t))
+					}
+					m.callFn(f, []Value{rv, Ptr{C: m.newCell(pt.Elem())}}, nil)
+					n++
+					break
+				}
+			}
+			switch u := t.Underlying().(type) {
+			case *types.Pointer:
+				visit(u.Elem(), depth+1)
+			case *types.Slice:
+				visit(u.Elem(), depth+1)
+			case *types.Array:
+				visit(u.Elem(), depth+1)
+			case *types.Map:
+				visit(u.Key(), depth+1)
+				visit(u.Elem(), depth+1)
+			case *types.Struct:
+				for i := 0; i < u.NumFields(); i++ {
+					visit(u.Field(i).Type(), depth+1)
+				}
+			}
+		}
+		visit(iv.T, 0)
+		return m.ctx.BV(uint64(n), 64)
 	})
 	reg("WatchGlobals", func(m *Machine, fn *ssa.Function, a []Value) Value {
 		m.installWriteLog()
